@@ -273,7 +273,7 @@ def _parse_tlc_output(res, out):
         elif ln.startswith("Error:"):
             m = re.match(r"Error: Invariant (\S+) is violated", ln)
             m2 = re.match(r"Error: Action property (\S+) is violated", ln)
-            m3 = "Temporal properties were violated" in ln
+            m3 = "Temporal properties were violated" in ln or re.search(r"Temporal property \S+ was violated", ln) is not None
             m4 = "Deadlock reached" in ln
             if m or m2 or m3 or m4:
                 name = m.group(1) if m else m2.group(1) if m2 else ("temporal" if m3 else "deadlock")
